@@ -40,6 +40,8 @@ def main():
         pass
     if args.get("wall_limit"):
         faulthandler.dump_traceback_later(args["wall_limit"], exit=True)
+    for name in filter(None, os.environ.get("VERIF_PRELOAD", "").split(",")):
+        __import__(name)           # another import order is one more interpreter configuration
     import d42
     real = os.path.realpath(os.path.dirname(os.path.dirname(d42.__file__)))
     if real != os.path.realpath(D42_SRC):
